@@ -305,7 +305,33 @@ def _run_conc(sc, ctl, shim, objs, observe):
         for r in rounds:
             if r.get('delay', 0) > 0:
                 ctl.sleep(r['delay'])
+            if r.get('spurious'):      # release() of an object this thread does not hold: documented as a no-op
+                ctl.log('SpuriousRel', thr=me, o=r['spurious'])
+                try:
+                    objs[r['spurious']].release()
+                except rt.Hang:
+                    raise
+                except BaseException as e:
+                    ctl.log('SpuriousRelRaised', thr=me, o=r['spurious'], exctype=type(e).__name__)
             one_round(me, r)
 
+    workers = []
     for t, rounds in sorted(sc['threads'].items()):
-        ctl.spawn(t, body, t, rounds)
+        workers.append(ctl.spawn(t, body, t, rounds))
+
+    if sc.get('final_probe'):
+        def prober():
+            # when everybody is done nothing may be left behind: every object can take the lock (and gives it back)
+            for ts in workers:
+                ctl.join(ts)
+            for o in sorted(objs):
+                try:
+                    ok = bool(objs[o].acquire(blocking=False))
+                    if ok:
+                        objs[o].release()
+                except rt.Hang:
+                    raise
+                except BaseException:
+                    ok = False
+                ctl.log('FinalProbe', o=o, ok=ok, fds=len(shim.fds), locked=[bool(objs[x]._lock_file_fd is not None) for x in sorted(objs)])
+        ctl.spawn('Z', prober)
